@@ -134,4 +134,8 @@ def hessian(poly: PolyLike) -> ndpoly:
                      [0, 0, 2*q0]]])
 
     """
-    return gradient(gradient(poly))
+    poly = numpoly.aspolynomial(poly)
+    polys = [
+        gradient(derivative(poly, diffvar))[numpy.newaxis] for diffvar in poly.names
+    ]
+    return numpoly.concatenate(polys, axis=0)
